@@ -268,15 +268,11 @@ Definition codec_ok (c : cobs) : bool :=
   && option_eqb beqb (co_b64 c) (Some (identity_text (co_id c)))
   && option_eqb beqb (co_b64n c) (Some (identity_text (co_id c))).
 
-(* ---- input classes of the open findings *)
-(* C16-F1: an entry with a "p" line but no "w" line (both optional in dir-spec) *)
-Definition p_without_w (e : entry) : bool :=
-  match e_bw e, e_policy e with None, Some _ => true | _, _ => false end.
-Definition doc_p_without_w (d : doc) : bool := existsb p_without_w d.
+(* ---- input class of the open finding (C16-F1, an entry with "p" and no "w" line, is repaired) *)
 (* C16-F2: two relays of one document that share a nickname and both carry Authority *)
 Definition doc_dup_authority_nick (d : doc) : bool :=
   negb (nodupb (map e_nick (filter (has_flag F_AUTHORITY) d))).
 
-(* the histories on which the full statement is proved: well-formed input outside both classes *)
+(* the histories on which the full statement is proved: well-formed input outside the class of C16-F2 *)
 Definition history_ok (ds : list (doc * list bytes)) : bool :=
-  forallb (fun dx => input_ok dx && negb (doc_p_without_w (fst dx)) && negb (doc_dup_authority_nick (fst dx))) ds.
+  forallb (fun dx => input_ok dx && negb (doc_dup_authority_nick (fst dx))) ds.
